@@ -417,3 +417,249 @@ pub async fn apply_tracked(store: &dyn object_store::ObjectStore, book: &mut Boo
     }
     out
 }
+
+// ---------------------------------------------------------------------------
+// light mode: long / two-instance histories without the read battery
+
+#[derive(Default)]
+pub struct LightOut {
+    pub violations: Vec<Violation>,
+    pub ops: u64,
+    pub reads: u64,
+    pub tokens: Vec<u128>,
+    pub tolerated: BTreeMap<&'static str, u64>,
+    /// (last op shape, its reference class, final reference content) for the distinct counter
+    pub outcome: String,
+}
+
+/// Runs a history whose i-th operation is issued through wrapper instance
+/// `who[i]` (0 or 1; both instances live over the same inner store for the
+/// whole history and keep their own metadata cache), next to ONE reference
+/// store receiving every operation. Checked: every mutation answers with the
+/// reference's class (the write-side decisions — Update / Create / copy and
+/// rename target modes — must never use a lagging cache), the direct CAS /
+/// create rule, token freshness of every commit (observed through a fresh
+/// instance, so the observation itself is never stale), and the final
+/// content of every key read through a fresh instance. Reads through the two
+/// long-lived instances are NOT compared: a second instance's cache may lag
+/// by design (cache TTL, single-writer contract).
+pub fn run_light(wrap: Wrap, hist: &[Op], who: &[u8], clock: u64) -> LightOut {
+    let r = std::panic::catch_unwind(std::panic::AssertUnwindSafe(|| {
+        util::block_on(run_light_async(wrap, hist, who, clock))
+    }));
+    match r {
+        Ok(out) => out,
+        Err(p) => {
+            let text = p
+                .downcast_ref::<String>()
+                .cloned()
+                .or_else(|| p.downcast_ref::<&str>().map(|s| s.to_string()))
+                .unwrap_or_default();
+            let mut out = LightOut::default();
+            out.violations.push(lviol(wrap, hist, who, clock, "panic", "during-history", format!("panicked: {text}")));
+            out
+        }
+    }
+}
+
+fn lviol(wrap: Wrap, hist: &[Op], who: &[u8], clock: u64, category: &str, detail: &str, text: String) -> Violation {
+    let two = who.contains(&1);
+    Violation {
+        signature: format!(
+            "C07/hist/{}/{}{}/{}",
+            wrap.kind(),
+            if two { "two-instances/" } else { "long/" },
+            category,
+            detail
+        ),
+        summary: format!(
+            "{}: [{}]: {}",
+            wrap.label(),
+            hist.iter()
+                .zip(who)
+                .map(|(o, w)| if two { format!("{}.{}", ["A", "B"][*w as usize], o.short()) } else { o.short() })
+                .collect::<Vec<_>>()
+                .join("; "),
+            text
+        ),
+        replay: json!({"wrap": wrap, "history": hist, "who": who, "clock": clock, "mode": "light"}),
+    }
+}
+
+async fn run_light_async(wrap: Wrap, hist: &[Op], who: &[u8], clock: u64) -> LightOut {
+    anda_db_utils::verif::set_clock(Some((clock, CLOCK_STEP_MS)));
+    let mut out = LightOut::default();
+    let reference: Arc<InMemory> = Arc::new(InMemory::new());
+    let inner: Arc<InMemory> = Arc::new(InMemory::new());
+    let inst = [build(wrap, inner.clone()), build(wrap, inner.clone())];
+    let two = who.contains(&1);
+    let mut rb = Book::default();
+    let mut wb = Book::default();
+    let mut seen: HashSet<String> = HashSet::new();
+    let mut last = String::new();
+    for (i, op) in hist.iter().enumerate() {
+        let (upto, wupto) = (&hist[..=i], &who[..=i]);
+        let present = rb.present(op.target());
+        let store = &inst[who[i] as usize];
+        let self_rename_ow = matches!(op, Op::Rename { from, to, create: false } if from == to) && present;
+        let r = if self_rename_ow {
+            *out.tolerated.entry("self_rename_reference_would_destroy_object").or_insert(0) += 1;
+            OpOut::synthetic(Class::Ok)
+        } else {
+            apply(reference.as_ref(), &rb, op).await
+        };
+        let w = apply(store.as_ref(), &wb, op).await;
+        out.ops += 1;
+        last = format!("{}:{:?}", op.kind(), r.class);
+        if r.class != w.class {
+            if let Some(name) = tolerated_op(op, present, &r, &w) {
+                *out.tolerated.entry(name).or_insert(0) += 1;
+            } else {
+                out.violations.push(lviol(
+                    wrap,
+                    upto,
+                    wupto,
+                    clock,
+                    "op-class",
+                    &format!("{}/ref={:?}/impl={:?}", op.kind(), r.class, w.class),
+                    format!("{} answered {:?} ({}) but the reference answered {:?} ({})", op.short(), w.class, w.err, r.class, r.err),
+                ));
+                return out;
+            }
+        }
+        if let Op::Put { mode, .. } = op {
+            let must = match mode {
+                Mode::Create => Some(!present),
+                Mode::Update(t) => Some(present && *t == Tok::Latest),
+                Mode::Overwrite => None,
+            };
+            if let Some(exp) = must
+                && (w.class == Class::Ok) != exp
+            {
+                out.violations.push(lviol(
+                    wrap,
+                    upto,
+                    wupto,
+                    clock,
+                    "cas",
+                    &format!("{}/expected-success={}/impl={:?}", op.kind(), exp, w.class),
+                    format!("{} answered {:?}; key present={}, token role={:?}", op.short(), w.class, present, mode),
+                ));
+                return out;
+            }
+        }
+        if !(r.class == Class::Ok && w.class == Class::Ok) {
+            continue;
+        }
+        let commit_key: Option<u8> = match op {
+            Op::Put { key, .. } => Some(*key),
+            Op::Multi { key, abort: false, .. } => Some(*key),
+            Op::Copy { to, .. } => Some(*to),
+            Op::Rename { from, to, .. } if from != to => Some(*to),
+            _ => None,
+        };
+        if let Some(k) = commit_key {
+            rb.commit(k, observe(reference.as_ref(), k).await.expect("reference head after commit"));
+            // observe through a fresh instance: never a lagging cache
+            let observer = if two { build(wrap, inner.clone()) } else { store.clone() };
+            out.reads += 1;
+            match observe(observer.as_ref(), k).await {
+                Err(e) => {
+                    out.violations.push(lviol(
+                        wrap,
+                        upto,
+                        wupto,
+                        clock,
+                        "head-after-commit",
+                        &op.kind(),
+                        format!("head({}) right after a successful {} failed: {e}", KEYS[k as usize], op.short()),
+                    ));
+                    return out;
+                }
+                Ok(wc) => {
+                    if matches!(op, Op::Put { .. } | Op::Multi { .. }) && (w.etag.is_none() || w.etag != wc.token) {
+                        out.violations.push(lviol(
+                            wrap,
+                            upto,
+                            wupto,
+                            clock,
+                            "put-result-token",
+                            &op.kind(),
+                            format!("{} returned token {:?} but head reports {:?}", op.short(), w.etag, wc.token),
+                        ));
+                        return out;
+                    }
+                    let tok = wc.token.clone().unwrap_or_default();
+                    if wc.token.is_none() || !seen.insert(tok.clone()) {
+                        out.violations.push(lviol(
+                            wrap,
+                            upto,
+                            wupto,
+                            clock,
+                            "token-reuse",
+                            &op.kind(),
+                            format!(
+                                "commit of {} by {} carries token {:?}, which an earlier commit of this history already carried (or none)",
+                                KEYS[k as usize],
+                                op.short(),
+                                wc.token
+                            ),
+                        ));
+                        return out;
+                    }
+                    out.tokens.push(h128(tok.as_bytes()));
+                    wb.commit(k, wc);
+                }
+            }
+        }
+        match op {
+            Op::Rename { from, to, .. } if from != to => {
+                rb.remove(*from);
+                wb.remove(*from);
+            }
+            Op::Delete { key } => {
+                rb.remove(*key);
+                wb.remove(*key);
+            }
+            _ => {}
+        }
+    }
+    // final content through a fresh instance
+    let cold = build(wrap, inner.clone());
+    let mut fin = String::new();
+    for k in 0..3u8 {
+        let get = |s: Arc<dyn object_store::ObjectStore>| async move {
+            match s.get(&key(k)).await {
+                Ok(r) => r.bytes().await.map(|b| Some(b.to_vec())).map_err(|e| e.to_string()),
+                Err(object_store::Error::NotFound { .. }) => Ok(None),
+                Err(e) => Err(e.to_string()),
+            }
+        };
+        let r = get(reference.clone()).await;
+        let w = get(cold.clone()).await;
+        out.reads += 1;
+        if r != w {
+            out.violations.push(lviol(
+                wrap,
+                hist,
+                who,
+                clock,
+                "final-content",
+                "differs",
+                format!(
+                    "a fresh instance reads {} as {:?} but the reference holds {:?}",
+                    KEYS[k as usize],
+                    w.as_ref().map(|o| o.as_ref().map(|b| b.len())),
+                    r.as_ref().map(|o| o.as_ref().map(|b| b.len()))
+                ),
+            ));
+            break;
+        }
+        fin.push_str(&match r {
+            Ok(Some(b)) => format!("{}:{:08x};", b.len(), util::fnv64(&b) as u32),
+            _ => "-;".into(),
+        });
+    }
+    out.outcome = format!("{last}|{fin}");
+    out
+}
